@@ -135,15 +135,18 @@ class ClassInfo:
 
 
 class Module:
-    def __init__(self, name, relpath, text):
+    def __init__(self, name, relpath, text, tree=None):
         self.name = name
         self.relpath = relpath
         self.text = text
         self.lines = text.splitlines()
-        try:
-            self.tree = ast.parse(text, filename=relpath)
-        except SyntaxError as exc:
-            raise AnalysisError("cannot parse %s: %s" % (relpath, exc))
+        if tree is not None:
+            self.tree = tree
+        else:
+            try:
+                self.tree = ast.parse(text, filename=relpath)
+            except SyntaxError as exc:
+                raise AnalysisError("cannot parse %s: %s" % (relpath, exc))
         self.digest = hashlib.sha256(text.encode()).hexdigest()[:16]
         self.classes = {}
         self.functions = {}
@@ -196,11 +199,24 @@ def builtin_exc_mro(name):
 class Model:
     VALUE_CLASSES = ("TimePoint", "Duration", "TimeZone", "TimeRecurrence")
 
-    def __init__(self, sources):
+    def __init__(self, sources, inline=True):
         """sources: {module short name: (relpath, text)}"""
         self.modules = {}
+        trees = {}
         for name, (relpath, text) in sorted(sources.items()):
-            self.modules[name] = Module(name, relpath, text)
+            try:
+                trees[name] = ast.parse(text, filename=relpath)
+            except SyntaxError as exc:
+                raise AnalysisError("cannot parse %s: %s" % (relpath, exc))
+        self.inline_report = {"inlined": {}, "removed": [], "kept": []}
+        if inline:
+            from .inline import inline_trees
+            try:
+                self.inline_report = inline_trees(trees)
+            except RecursionError:
+                raise AnalysisError("helper inlining did not terminate")
+        for name, (relpath, text) in sorted(sources.items()):
+            self.modules[name] = Module(name, relpath, text, trees[name])
         self.classes = {}
         self.functions = {}
         for m in self.modules.values():
